@@ -37,6 +37,7 @@ import (
 	"github.com/anyproto/any-sync/app/ldiff"
 	"github.com/anyproto/any-sync/app/logger"
 	"github.com/anyproto/any-sync/commonspace/headsync/headstorage"
+	"github.com/anyproto/any-sync/commonspace/object/acl/recordverifier"
 	"github.com/anyproto/any-sync/commonspace/object/keyvalue"
 	"github.com/anyproto/any-sync/commonspace/object/keyvalue/keyvaluestorage/innerstorage"
 	"github.com/anyproto/any-sync/commonspace/spacesyncproto"
@@ -138,7 +139,7 @@ func body(c *vk.Ctx) {
 	for _, p := range []struct {
 		name string
 		f    func()
-	}{{"bigts", k.partBigTimestamps}, {"auth", k.partAuth}, {"faults", k.partFaults}, {"local", k.partLocal}, {"exchange", k.partExchange}, {"arrival", k.partArrival}} {
+	}{{"bigts", k.partBigTimestamps}, {"localwho", k.partLocalWriters}, {"auth", k.partAuth}, {"faults", k.partFaults}, {"local", k.partLocal}, {"exchange", k.partExchange}, {"arrival", k.partArrival}} {
 		// C12_PARTS=auth,faults restricts a (debugging) run to some parts
 		if sel := os.Getenv("C12_PARTS"); sel != "" && !strings.Contains(","+sel+",", ","+p.name+",") {
 			continue
@@ -608,6 +609,121 @@ func (k *checker) partBigTimestamps() {
 				c.Violation("reopen/index-hash:big-timestamp", fmt.Sprintf("values %v: a store re-opened on the collection advertises hash %s, the running one %s", desc, hash, o.Hash), rep)
 			case len(headAfter) != 1 || headAfter[0] != hash:
 				c.Violation("reopen/head-entry:big-timestamp", fmt.Sprintf("values %v: after re-opening the head entry is %v, the index hash %s", desc, headAfter, hash), rep)
+			}
+		}
+	}
+}
+
+// partLocalWriters: the local write path (Storage.Set) for every kind of local account. A value is stored only if the
+// signing account holds write permission at the ACL record it cites, and Set cites the head of the local account's
+// own ACL view: Set by the writer W stores (and the owner's store accepts that very value), Set by R while it is a
+// Reader (view cut after "addR"), by R after its removal, and by N who was never admitted must be refused and leave
+// store, index, head entry and broadcasts exactly as they were. Run on an empty store and on one that already holds
+// a value of W.
+func (k *checker) partLocalWriters() {
+	w, c := k.w, k.c
+	if c.Shard != 0 {
+		return
+	}
+	s := w.sim
+	cut := func(rec string) int {
+		for i, r := range s.Log {
+			if r.Id == w.rec[rec] {
+				return i + 1
+			}
+		}
+		panic("no record " + rec)
+	}
+	type actor struct {
+		name  string
+		acc   string
+		n     int
+		write bool
+	}
+	actors := []actor{
+		{"writer W", "W", len(s.Log), true},
+		{"owner O", "O", len(s.Log), true},
+		{"R while it is a Reader (log cut after addR)", "R", cut("addR"), false},
+		{"R after its removal", "R", len(s.Log), false},
+		{"N, never admitted", "N", len(s.Log), false},
+		{"W before it was added (log cut at the root)", "W", 1, false},
+	}
+	pre := Val{Key: "alpha", Dev: "W2", T: 1}
+	for _, a := range actors {
+		for _, preload := range []bool{false, true} {
+			for _, key := range keyNames[:2] {
+				rep := map[string]any{"part": "localwho", "actor": a.name, "key": key, "preloaded": preload}
+				c.Count("evaluations", 1)
+				acl, err := s.View(s.Acc(a.acc), a.n, recordverifier.NewValidateFull())
+				if err != nil {
+					// an account that cannot even build its view cannot write: counted, not judged
+					c.Count("localwho_no_view", 1)
+					continue
+				}
+				keys := s.Acc(a.acc).Keys
+				st := w.openAs("kvW", keys, acl)
+				if preload {
+					if err, pn := k.setRaw(st, w.protosOf([]Val{pre})); err != nil || pn != "" {
+						if a.n == len(s.Log) {
+							c.Violation("localwho/preload", fmt.Sprintf("%s: SetRaw of a valid value of W: %v %s", a.name, err, pn), rep)
+						}
+						continue
+					}
+				}
+				before, err := st.observe(keyNames)
+				if err != nil {
+					c.Violation("localwho/observe-error", fmt.Sprintf("%s: %v", a.name, err), rep)
+					continue
+				}
+				calls := len(st.sc.calls)
+				var serr error
+				c.Count("transitions", 1)
+				if p, pw := vk.Recover(func() { serr = st.st.Set(ctx, key, []byte("local plaintext")) }); p {
+					c.Violation("localwho/panic", fmt.Sprintf("%s: Set panicked: %s", a.name, pw), rep)
+					continue
+				}
+				after, err := st.observe(keyNames)
+				if err != nil {
+					c.Violation("localwho/observe-error", fmt.Sprintf("%s: %v", a.name, err), rep)
+					continue
+				}
+				c.Distinct("distinct", fmt.Sprint("localwho ", a.name, preload, serr == nil))
+				if !a.write {
+					switch {
+					case serr == nil:
+						c.Violation("localwho/non-writer-set-accepted", fmt.Sprintf("Set(%q) by %s returned no error; the store now holds %d values", key, a.name, len(after.Iter)), rep)
+					case len(after.Iter) != len(before.Iter) || !elsEqual(after.Els, before.Els) || after.Hash != before.Hash || fmt.Sprint(after.Head) != fmt.Sprint(before.Head):
+						c.Violation("localwho/refused-set-left-traces", fmt.Sprintf("Set(%q) by %s was refused (%v) but the store went from %d values / index %s to %d values / index %s", key, a.name, serr, len(before.Iter), w.elsStr(before.Els), len(after.Iter), w.elsStr(after.Els)), rep)
+					case len(st.sc.calls) != calls:
+						c.Violation("localwho/refused-set-broadcast", fmt.Sprintf("Set(%q) by %s was refused (%v) but a value was broadcast", key, a.name, serr), rep)
+					}
+					continue
+				}
+				if serr != nil {
+					c.Violation("localwho/writer-set-refused", fmt.Sprintf("Set(%q) by %s returned %v", key, a.name, serr), rep)
+					continue
+				}
+				if len(st.sc.calls) != calls+1 || len(st.sc.calls[calls]) != 1 {
+					c.Violation("localwho/broadcast", fmt.Sprintf("Set(%q) by %s did not broadcast exactly its one value", key, a.name), rep)
+					continue
+				}
+				kv := st.sc.calls[calls][0]
+				okI, _ := keys.SignKey.GetPublic().Verify(kv.Value.Value, kv.Value.IdentitySignature)
+				okP, _ := keys.PeerKey.GetPublic().Verify(kv.Value.Value, kv.Value.PeerSignature)
+				if !okI || !okP || kv.KeyPeerId != key+"-"+keys.PeerKey.GetPublic().PeerId() {
+					c.Violation("localwho/bad-local-value", fmt.Sprintf("Set(%q) by %s: identity signature ok=%v, device signature ok=%v, filed under %q", key, a.name, okI, okP, kv.KeyPeerId), rep)
+					continue
+				}
+				// the owner's store must accept exactly that value
+				other := w.fresh("kvX")
+				if err, pn := k.setRaw(other, []*spacesyncproto.StoreKeyValue{kv.Proto()}); err != nil || pn != "" {
+					c.Violation("localwho/peer-refuses-local-value", fmt.Sprintf("the value written by Set(%q) of %s is refused by the owner's store: %v %s", key, a.name, err, pn), rep)
+					continue
+				}
+				oo, err := other.observe(keyNames)
+				if err != nil || len(oo.Iter) != 1 || oo.Iter[0] != docOf(kv) {
+					c.Violation("localwho/peer-stores-other", fmt.Sprintf("the value written by Set(%q) of %s is not what the owner's store holds after receiving it (%v)", key, a.name, err), rep)
+				}
 			}
 		}
 	}
@@ -1411,6 +1527,10 @@ func (k *checker) replay() {
 		// the part is a handful of cases: it is run again as a whole
 		c.Shard = 0
 		k.partBigTimestamps()
+		return
+	case "localwho":
+		c.Shard = 0
+		k.partLocalWriters()
 		return
 	case "arrival":
 		var f struct{ Case arrivalCase }
